@@ -298,17 +298,19 @@ fn validate_rpc_limits(
     max_publish_messages: usize,
     max_control_message_size: usize,
 ) -> io::Result<bool> {
+    // Consume length prefix and get message bytes from length-prefixed buffer for validation
+    if !consume_message_prefix(&mut buf)? {
+        return Ok(false);
+    }
+
+    // `buf` now holds exactly the bytes of the first message. The read buffer also holds the
+    // length prefix and may hold further messages, which do not count towards the limit.
     let message_length = buf.len();
     if message_length > max_message_size {
         return Err(io::Error::new(
             io::ErrorKind::InvalidData,
             format!("message with {message_length}b exceeds maximum of {max_message_size}b",),
         ));
-    }
-
-    // Consume length prefix and get message bytes from length-prefixed buffer for validation
-    if !consume_message_prefix(&mut buf)? {
-        return Ok(false);
     }
 
     let mut publish_count = 0;
@@ -351,15 +353,15 @@ impl Decoder for GossipsubCodec {
     type Error = prost_codec::Error;
 
     fn decode(&mut self, src: &mut BytesMut) -> Result<Option<Self::Item>, Self::Error> {
-        // Pre-validate: discard if limits exceeded
-        if !validate_rpc_limits(
+        // Pre-validate the first message if it is complete: discard if limits exceeded.
+        // An incomplete message is left to the inner codec, which asks for more bytes or
+        // rejects an oversized length prefix without buffering the message.
+        validate_rpc_limits(
             src.as_ref(),
             self.global_max_transmit_size,
             self.max_publish_messages,
             self.max_control_message_size,
-        )? {
-            return Ok(None);
-        };
+        )?;
 
         // Safe to decode with prost
         let Some(mut rpc) = self.codec.decode(src)? else {
